@@ -16,7 +16,9 @@
  *   push c V | pushat c i V | pop c | popat c i | get c i | set c i V | rem c V | mem c V | len x
  *   mset m K V | mget m K | mrem m K | mmem m K | items c | ritems c | sort c | copy d c | concat c c2 | resize c n
  *   eq a b | cmp a b | vset x V | exc k | nest k1 k2
- *   nvr d V | nvo d V            value objects made by new_raw / new_root (deleted with del_raw / del_root)
+ *   nvr d V | nvo d V            value objects made by new_raw / new_root (deleted with del_raw / del_root).  The only pointer to a
+ *                                new_root object is kept in STATIC storage (XOR-masked: nothing the collector scans shows it) — the
+ *                                case roots exist for; the root flag of its registry entry alone keeps it through every collection
  *   ed x SEL EDIT                an in-place edit of a String (asg: also Int) object of ANY allocation class it is defined on:
  *        SEL  = self (the object behind handle x) | at i (get(x, $I(i)) of an Array/List: an element embedded in the container)
  *             | it i (the i-th object handed out by iteration) | val K (get(m, K) of a Table/Tree) | key K (the embedded key equal to K,
@@ -36,6 +38,8 @@
  *                     | xrem n k | xdel n | xdrop n
  *   (O lines, modelled: Cello/Config.lean namespace Keep) keep programs — holders 0..MAXH-1 that are the sole path to managed objects:
  *                     hnew h kind | hput h k id pay | hget h k | hread h | hrem h k | hrel h k | hshrink h n | hreserve h n
+ *                     (kind in UPPER CASE — A L T K R Q U C: the container is made with new_root and its only pointer lives in static
+ *                     storage outside the collector's view; released with hdel = del_root; hdrop of a root is out of contract)
  *                     | hchurn m | hdrop h | hdel h        (see "keep programs" below)
  *                     | hexit                              process exit in a forked child: which Tracked destructors have run when the process
  *                                                          has ended (the `main` wrapper's atexit(Cello_Exit) exists only #ifndef CELLO_NGC)
@@ -69,6 +73,16 @@ enum { K_NONE = 0, K_VAL, K_ARRAY, K_LIST, K_TABLE, K_TREE, K_TUPLE };
 typedef struct { int kind; int et; int vt; SV* xs; SV* ys; size_t n, cap; int mode; } SH;   /* mode: 0 new, 1 new_raw, 2 new_root */
 static SH sh[MAXSLOT];
 static var* S;              /* the live handles: an array in main's frame (the collector scans the stack) */
+/* ROOTS.  An object made with new_root is meant to be referenced from where the collector does not look (a file-scope variable,
+ * a malloc'ed C structure): its registry entry carries the root flag and nothing else keeps it.  So the workload keeps the ONLY
+ * pointer to every new_root object in static storage, XOR-masked (no word anywhere has the value of the pointer), S[a] stays NULL.
+ * sget() hands the pointer to the operation that uses it; main() scrubs the dead stack below its frame before every operation, so
+ * that copies left behind by one operation are not what keeps the root alive in the next. */
+#define ROOTMASK ((uintptr_t)0x5a5a5a5a5a5a5a5aULL)
+static uintptr_t sroot[MAXSLOT];
+static __attribute__((noinline)) var sget(int a) { return (sh[a].kind != 0 && sh[a].mode == 2) ? (var)(sroot[a] ^ ROOTMASK) : S[a]; }
+#define SG(a) sget(a)
+static __attribute__((noinline)) void deep_scrub(void) { volatile uint64_t pad[6144]; for (size_t i = 0; i < sizeof pad / sizeof pad[0]; i++) pad[i] = 0; }
 static var* TS;             /* heap Tuples (transcript-only part), also in main's frame */
 static SH tsh[MAXT];        /* their shadows: kind K_TUPLE, et, xs = values of the items in order */
 static size_t cur_line = 0;
@@ -202,7 +216,7 @@ static size_t lib_map_kvs(KV* kv, size_t cap, var m) {
 /* whole-object comparison library vs shadow, after every mutation */
 static KV kvbuf[4096], kvbuf2[4096];
 static void check_obj(int s, const char* after) {
-  SH* h = &sh[s]; var o = S[s]; char w[128];
+  SH* h = &sh[s]; var o = SG(s); char w[128];
   if (h->kind == K_VAL) {
     char a[64], b[64]; lib_show(a, sizeof a, o); sv_show(b, sizeof b, &h->xs[0]);
     if (strcmp(a, b)) { snprintf(w, sizeof w, "value-after-%s", after); XF(w, a, b); }
@@ -356,9 +370,14 @@ static int KCell_Cmp(var self, var obj) { struct KCell* a = self; struct KCell* 
 static uint64_t KCell_Hash(var self) { struct KCell* a = self; return (uint64_t)a->k; }
 static var KCell = Cello(KCell, Instance(Assign, KCell_Assign), Instance(Cmp, KCell_Cmp), Instance(Hash, KCell_Hash));
 
-typedef struct { int kind; int n; long long key[MAXE]; int id[MAXE]; } KH;
+typedef struct { int kind; int n; long long key[MAXE]; int id[MAXE]; int rooted; int lost; } KH;
 static KH kh[MAXH];
 static var* HH;                    /* the holders: an array in main's frame */
+/* ROOTED holders (`hnew h K`, K in upper case): the container is made with new_root and the ONLY pointer to it is kept here, in
+ * static storage, XOR-masked — a root referenced from the data segment, which the collector does not scan.  HH[h] stays NULL.  The
+ * root flag of its registry entry is all that keeps the container (and through it every Tracked object it holds) alive. */
+static uintptr_t hroot[MAXH];
+static __attribute__((noinline)) var HV(int h) { return kh[h].rooted ? (var)(hroot[h] ^ ROOTMASK) : HH[h]; }
 static var kp[MAXE], kl[MAXE];     /* scratch for pointers (static storage: not scanned by the collector); cleared after use */
 static long long kk_[MAXE];
 static size_t n_keep = 0, n_keep_reads = 0, n_high = 0, n_thread_runs = 0;
@@ -373,9 +392,25 @@ static int k_pos(KH* h, long long k) {
 static void k_tls_key(char* out, size_t n, int h, long long k) { snprintf(out, n, "keep%d_%lld", h, k); }
 static __attribute__((noinline)) void k_scrub(void) { volatile char pad[6144]; for (size_t i = 0; i < sizeof pad; i++) pad[i] = 0; }
 
+/* a holder the program still holds (in a variable on the stack, or — rooted — in static storage) must still be registered with the
+ * collector: public API mem(current(GC), obj), which does not touch the object.  A holder that is not was reclaimed under the
+ * program's feet; nothing is dereferenced any more. */
+static __attribute__((noinline)) int k_registered(int h) {
+#ifndef CELLO_NGC
+  var c = HV(h);
+  return c == NULL || (int)mem(current(GC), c);
+#else
+  return 1;
+#endif
+}
 /* the audit: run before and after every keep operation, after every collection and at the end */
 static void k_audit(const char* when) {
   char a[96], b[64];
+  for (int h = 0; h < MAXH; h++) if (kh[h].kind && kh[h].kind != 's' && !kh[h].lost && !k_registered(h)) {
+    kh[h].lost = 1; k_poisoned = 1;
+    snprintf(a, sizeof a, "holder=%d kind=%c%s at=%s", h, kh[h].kind, kh[h].rooted ? " (new_root, referenced from static storage only)" : "", when);
+    XF(kh[h].rooted ? "root-holder-reclaimed-while-in-use" : "holder-reclaimed-while-in-use", a, "registered");
+  }
   for (int id = 0; id < led_top; id++) {
     if (!led[id].made || led[id].reported) continue;
     const char* what = NULL;
@@ -415,7 +450,7 @@ __attribute__((destructor)) static void exit_ledger_report(void) {
 
 /* the object behind position `pos` / key `k` of holder h, through the public API */
 static __attribute__((noinline)) var k_fetch(int h, int pos, long long k) {
-  var c = HH[h]; var p = NULL; char key[48];
+  var c = HV(h); var p = NULL; char key[48];
   switch (kh[h].kind) {
     case 'a': case 'l': p = deref(get(c, $I(pos))); break;
     case 'u': p = get(c, $I(pos)); break;
@@ -443,7 +478,7 @@ static __attribute__((noinline)) var k_new_tracked(int id, long long pay) {
   return o;
 }
 static __attribute__((noinline)) void k_put(int h, int pos, long long k, int id, long long pay) {
-  var c = HH[h]; char key[48];
+  var c = HV(h); char key[48];
   var o = k_new_tracked(id, pay);
   switch (kh[h].kind) {
     case 'a': case 'l': if (pos == kh[h].n) push(c, $R(o)); else push_at(c, $R(o), $I(pos)); break;
@@ -465,7 +500,7 @@ static __attribute__((noinline)) void k_put(int h, int pos, long long k, int id,
 }
 /* take the element at pos / key k out of the container; returns the object (and, for a chain, its link in *link) */
 static __attribute__((noinline)) var k_take(int h, int pos, long long k, var* link) {
-  var c = HH[h]; var p = k_fetch(h, pos, k); char key[48]; *link = NULL;
+  var c = HV(h); var p = k_fetch(h, pos, k); char key[48]; *link = NULL;
   switch (kh[h].kind) {
     case 'a': case 'l': case 'u': pop_at(c, $I(pos)); break;
     case 't': case 'r': rem(c, $I(k)); break;
@@ -492,7 +527,7 @@ static __attribute__((noinline)) void k_delete_obj(int id, var p, var link) {
 }
 /* everything the holder contains, in container order, into kp[] (objects), kl[] (chain links), kk_[] (keys); returns the count */
 static __attribute__((noinline)) int k_collect(int h) {
-  var c = HH[h]; int n = 0; char key[48];
+  var c = HV(h); int n = 0; char key[48];
   memset(kp, 0, sizeof kp); memset(kl, 0, sizeof kl);
   switch (kh[h].kind) {
     case 'a': case 'l': { foreach (x in c) { if (n < MAXE) { kp[n] = deref(x); kk_[n] = n; } n++; } } break;
@@ -530,7 +565,8 @@ static __attribute__((noinline)) void k_delete_all(int h) {
   int n = k_collect(h); if (n > MAXE) n = MAXE;
   if (kind == 's') {
     for (int i = 0; i < kh[h].n; i++) { k_tls_key(key, sizeof key, h, kh[h].key[i]); rem(current(Thread), $S(key)); }
-  } else del(HH[h]);
+  } else if (kh[h].rooted) { del_root(HV(h)); hroot[h] = 0; }
+  else del(HH[h]);
   for (int i = 0; i < n; i++) {
     if (kind == 'c' && kl[i]) { if (type_of(kl[i]) == Box) { del(kl[i]); continue; } del(kl[i]); }
     del(kp[i]);
@@ -560,6 +596,55 @@ static __attribute__((noinline)) void k_run_thread(int h) {
   memset(&k_run, 0, sizeof k_run); k_run.h = h;
   call(HH[h], $I(h));
   join(HH[h]);
+}
+/* the operations that need the holder itself run in their own frames (the pointer of a rooted holder never rests in run_op's) */
+static __attribute__((noinline)) void k_shrink(int h, long long k) {
+  KH* s = &kh[h]; var c = HV(h); char key[48];
+  if (s->kind == 's') { for (int i = 0; i < s->n; i++) { k_tls_key(key, sizeof key, h, s->key[i]); rem(current(Thread), $S(key)); } }
+  else if (s->kind == 'w') { for (int i = 0; i < s->n; i++) { k_tls_key(key, sizeof key, h, s->key[i]); rem(c, $S(key)); } }
+  else if (s->kind == 'c') {
+    if (k == 0) ref(c, NULL);
+    else { var L = deref(c); struct Tracked* q = deref(L); for (int i = 1; i < k; i++) { L = q->link; q = deref(L); } q->link = NULL; }
+  }
+  else if (s->kind == 'u') { if (k < s->n) resize(c, (size_t)k); }       /* Tuple_Resize refuses n >= len */
+  else resize(c, (size_t)k);
+}
+static __attribute__((noinline)) void k_resize(int h, long long k) { resize(HV(h), (size_t)k); }
+static __attribute__((noinline)) size_t k_len(int h) { return len(HV(h)); }
+static __attribute__((noinline)) void k_table_stats(int h, size_t* nslots, size_t* high) {
+  struct Table* tb = HV(h); *high = 0; *nslots = tb->nslots;
+  for (size_t i = tb->nitems; i < tb->nslots; i++) if (Table_Key_Hash(tb, i) != 0) (*high)++;
+}
+static __attribute__((noinline)) void k_new_holder(int h, int kind, int rooted) {
+  var c = NULL;
+  if (!rooted) {
+    switch (kind) {
+      case 'a': c = new(Array, Ref); break;
+      case 'l': c = new(List, Ref); break;
+      case 't': c = new(Table, Int, Ref); break;
+      case 'k': c = new(Table, KCell, Int); break;
+      case 'r': c = new(Tree, Int, Ref); break;
+      case 'q': c = new(Tree, KCell, Int); break;
+      case 'u': c = new(Tuple); break;
+      case 'c': c = new(Ref); ref(c, NULL); break;
+      case 's': c = NULL; break;
+      case 'w': c = new(Thread, keep_fn); break;
+    }
+    HH[h] = c; hroot[h] = 0;
+  } else {
+    switch (kind) {
+      case 'a': c = new_root(Array, Ref); break;
+      case 'l': c = new_root(List, Ref); break;
+      case 't': c = new_root(Table, Int, Ref); break;
+      case 'k': c = new_root(Table, KCell, Int); break;
+      case 'r': c = new_root(Tree, Int, Ref); break;
+      case 'q': c = new_root(Tree, KCell, Int); break;
+      case 'u': c = new_root(Tuple); break;
+      case 'c': c = new_root(Ref); ref(c, NULL); break;
+    }
+    hroot[h] = (uintptr_t)c ^ ROOTMASK; HH[h] = NULL;
+  }
+  c = NULL;
 }
 static int k_cmp_idx(const void* a, const void* b) { long long x = kk_[*(const int*)a], y = kk_[*(const int*)b]; return x < y ? -1 : x > y; }
 
@@ -754,6 +839,29 @@ static const char* FMTS_STR[] = { "%s", "[%8s|%-8s]", "%.2s", "<%s>%%" };
 #define BAD() do { O("bad-op"); n_bad++; return; } while (0)
 #define LIVE(s) (sh[s].kind != K_NONE)
 
+/* new_root of a value object: the pointer goes straight into the masked static cell, never into a variable of the caller */
+static __attribute__((noinline)) void s_new_root(int a, const SV* v) {
+  var o = v->isstr ? (var)new_root(String, $S((char*)v->s)) : (var)new_root(Int, $I(v->i));
+  sroot[a] = (uintptr_t)o ^ ROOTMASK; S[a] = NULL; o = NULL;
+}
+/* every live new_root value object must still be registered with the collector (public API: mem(current(GC), obj)); one that is not
+ * was reclaimed although the program never released it — reported, and the slot is given up so that freed memory is never read */
+static __attribute__((noinline)) int s_root_registered(int a) {
+#ifndef CELLO_NGC
+  return (int)mem(current(GC), (var)(sroot[a] ^ ROOTMASK));
+#else
+  return 1;
+#endif
+}
+static void s_audit(const char* when) {
+  char w[96];
+  for (int a = 0; a < MAXSLOT; a++) if (sh[a].kind != K_NONE && sh[a].mode == 2 && !s_root_registered(a)) {
+    snprintf(w, sizeof w, "slot=%d at=%s", a, when);
+    XF("root-object-reclaimed-while-in-use", w, "registered-root");
+    sroot[a] = 0; S[a] = NULL; sh_free(&sh[a]);
+  }
+}
+
 static void unexpected(var e) {
   char a[64]; snprintf(a, sizeof a, "%s", v_exc_name(e));
   XF("in-contract-operation-raised", a, "none");
@@ -771,7 +879,7 @@ static void run_op(int nt, char** t) {
     V_TRY(exc, {
       if (mode == 0) S[a] = v.isstr ? (var)new(String, $S(v.s)) : (var)new(Int, $I(v.i));
       else if (mode == 1) S[a] = v.isstr ? (var)new_raw(String, $S(v.s)) : (var)new_raw(Int, $I(v.i));
-      else S[a] = v.isstr ? (var)new_root(String, $S(v.s)) : (var)new_root(Int, $I(v.i));
+      else s_new_root(a, &v);
     });
     if (exc) { unexpected(exc); O("err %s", v_exc_name(exc)); return; }
     sh[a].kind = K_VAL; sh[a].et = v.isstr; sh_reserve(&sh[a], 1); sh[a].xs[0] = v; sh[a].n = 1; sh[a].mode = mode;
@@ -816,8 +924,8 @@ static void run_op(int nt, char** t) {
     if (nt != 2 || !parse_slot(t[1], &a)) BAD();
     if (!LIVE(a)) OOC();
     n_exec++;
-    if (op[1] == 'e') { V_TRY(exc, del_by_mode(S[a], sh[a].mode)); if (exc) { unexpected(exc); } }
-    S[a] = NULL; sh_free(&sh[a]);
+    if (op[1] == 'e') { V_TRY(exc, del_by_mode(SG(a), sh[a].mode)); if (exc) { unexpected(exc); } }
+    S[a] = NULL; sroot[a] = 0; sh_free(&sh[a]);
     O("ok"); return;
   }
   /* ---------------- sequences */
@@ -825,7 +933,7 @@ static void run_op(int nt, char** t) {
     if (nt != 3 || !parse_slot(t[1], &a) || !parse_sv(t[2], &v)) BAD();
     if (!LIVE(a) || !is_seq(a) || v.isstr != sh[a].et) OOC();
     n_exec++;
-    V_TRY(exc, push(S[a], MK(v)));
+    V_TRY(exc, push(SG(a), MK(v)));
     if (exc) { unexpected(exc); O("err %s", v_exc_name(exc)); return; }
     sh_insert(&sh[a], sh[a].n, &v);
     O("ok"); check_obj(a, op); return;
@@ -837,7 +945,7 @@ static void run_op(int nt, char** t) {
     if (sh[a].kind == K_ARRAY) { i = i < 0 ? (L + 1) + i : i; if (i < 0 || i > L) OOC(); }
     else { if (n != 0) { i = i < 0 ? L + i : i; if (i < 0 || i >= L) OOC(); } else i = 0; }
     n_exec++;
-    V_TRY(exc, push_at(S[a], MK(v), $I(n)));
+    V_TRY(exc, push_at(SG(a), MK(v), $I(n)));
     if (exc) { unexpected(exc); O("err %s", v_exc_name(exc)); return; }
     sh_insert(&sh[a], (size_t)i, &v);
     O("ok"); check_obj(a, op); return;
@@ -846,7 +954,7 @@ static void run_op(int nt, char** t) {
     if (nt != 2 || !parse_slot(t[1], &a)) BAD();
     if (!LIVE(a) || !is_seq(a) || sh[a].n == 0) OOC();
     n_exec++;
-    V_TRY(exc, pop(S[a]));
+    V_TRY(exc, pop(SG(a)));
     if (exc) { unexpected(exc); O("err %s", v_exc_name(exc)); return; }
     sh_remove(&sh[a], sh[a].n - 1);
     O("ok"); check_obj(a, op); return;
@@ -862,18 +970,18 @@ static void run_op(int nt, char** t) {
     n_exec++;
     if (op[0] == 'g') {
       var r = NULL;
-      V_TRY(exc, r = get(S[a], $I(n)));
+      V_TRY(exc, r = get(SG(a), $I(n)));
       if (exc) { unexpected(exc); O("err %s", v_exc_name(exc)); return; }
       lib_show(e1, sizeof e1, r); sv_show(e2, sizeof e2, &sh[a].xs[i]);
       if (strcmp(e1, e2)) XF("get", e1, e2);
       O("get %s", e1); return;
     }
     if (isset) {
-      V_TRY(exc, set(S[a], $I(n), MK(v)));
+      V_TRY(exc, set(SG(a), $I(n), MK(v)));
       if (exc) { unexpected(exc); O("err %s", v_exc_name(exc)); return; }
       sh[a].xs[i] = v;
     } else {
-      V_TRY(exc, pop_at(S[a], $I(n)));
+      V_TRY(exc, pop_at(SG(a), $I(n)));
       if (exc) { unexpected(exc); O("err %s", v_exc_name(exc)); return; }
       sh_remove(&sh[a], (size_t)i);
     }
@@ -887,12 +995,12 @@ static void run_op(int nt, char** t) {
     n_exec++;
     if (op[0] == 'm') {
       bool r = false;
-      V_TRY(exc, r = mem(S[a], MK(v)));
+      V_TRY(exc, r = mem(SG(a), MK(v)));
       if (exc) { unexpected(exc); O("err %s", v_exc_name(exc)); return; }
       if ((int)r != (at >= 0)) XF("mem", r ? "1" : "0", at >= 0 ? "1" : "0");
       O("mem %d", (int)r); return;
     }
-    V_TRY(exc, rem(S[a], MK(v)));
+    V_TRY(exc, rem(SG(a), MK(v)));
     if (exc) { unexpected(exc); O("err %s", v_exc_name(exc)); return; }
     sh_remove(&sh[a], (size_t)at);
     O("ok"); check_obj(a, op); return;
@@ -903,7 +1011,7 @@ static void run_op(int nt, char** t) {
     if (sh[a].kind == K_VAL && !sh[a].et) OOC();
     n_exec++;
     size_t r = 0, w = sh[a].kind == K_VAL ? strlen(sh[a].xs[0].s) : sh[a].n;
-    V_TRY(exc, r = len(S[a]));
+    V_TRY(exc, r = len(SG(a)));
     if (exc) { unexpected(exc); O("err %s", v_exc_name(exc)); return; }
     if (r != w) { snprintf(e1, sizeof e1, "%zu", r); snprintf(e2, sizeof e2, "%zu", w); XF("len", e1, e2); }
     O("len %zu", r); return;
@@ -913,7 +1021,7 @@ static void run_op(int nt, char** t) {
     if (nt != 4 || !parse_slot(t[1], &a) || !parse_sv(t[2], &k) || !parse_sv(t[3], &v)) BAD();
     if (!LIVE(a) || !is_map(a) || k.isstr != sh[a].et || v.isstr != sh[a].vt) OOC();
     n_exec++;
-    V_TRY(exc, set(S[a], MK(k), MK(v)));
+    V_TRY(exc, set(SG(a), MK(k), MK(v)));
     if (exc) { unexpected(exc); O("err %s", v_exc_name(exc)); return; }
     long at = sh_find(&sh[a], &k);
     if (at >= 0) sh[a].ys[at] = v; else { sh_reserve(&sh[a], sh[a].n + 1); sh[a].xs[sh[a].n] = k; sh[a].ys[sh[a].n] = v; sh[a].n++; }
@@ -927,20 +1035,20 @@ static void run_op(int nt, char** t) {
     n_exec++;
     if (op[1] == 'm') {
       bool r = false;
-      V_TRY(exc, r = mem(S[a], MK(k)));
+      V_TRY(exc, r = mem(SG(a), MK(k)));
       if (exc) { unexpected(exc); O("err %s", v_exc_name(exc)); return; }
       if ((int)r != (at >= 0)) XF("mmem", r ? "1" : "0", at >= 0 ? "1" : "0");
       O("mem %d", (int)r); return;
     }
     if (op[1] == 'g') {
       var r = NULL;
-      V_TRY(exc, r = get(S[a], MK(k)));
+      V_TRY(exc, r = get(SG(a), MK(k)));
       if (exc) { unexpected(exc); O("err %s", v_exc_name(exc)); return; }
       lib_show(e1, sizeof e1, r); sv_show(e2, sizeof e2, &sh[a].ys[at]);
       if (strcmp(e1, e2)) XF("mget", e1, e2);
       O("get %s", e1); return;
     }
-    V_TRY(exc, rem(S[a], MK(k)));
+    V_TRY(exc, rem(SG(a), MK(k)));
     if (exc) { unexpected(exc); O("err %s", v_exc_name(exc)); return; }
     sh_remove(&sh[a], (size_t)at);
     O("ok"); check_obj(a, op); return;
@@ -952,14 +1060,14 @@ static void run_op(int nt, char** t) {
     if (op[0] == 'r' && !is_seq(a)) OOC();
     n_exec++;
     if (is_seq(a)) {
-      V_TRY(exc, if (op[0] == 'r') lib_ritems(buf1, S[a]); else lib_items(buf1, S[a]));
+      V_TRY(exc, if (op[0] == 'r') lib_ritems(buf1, SG(a)); else lib_items(buf1, SG(a)));
       if (exc) { unexpected(exc); O("err %s", v_exc_name(exc)); return; }
       sh_items(buf2, &sh[a], op[0] == 'r');
       if (strcmp(buf1, buf2)) XF(op, buf1, buf2);
       O("items %s", buf1); return;
     }
     size_t cnt = 0;
-    V_TRY(exc, cnt = lib_map_kvs(kvbuf, 4096, S[a]));
+    V_TRY(exc, cnt = lib_map_kvs(kvbuf, 4096, SG(a)));
     if (exc) { unexpected(exc); O("err %s", v_exc_name(exc)); return; }
     if (cnt > 4096) cnt = 4096;
     kvs_render(buf1, kvbuf, cnt);
@@ -974,7 +1082,7 @@ static void run_op(int nt, char** t) {
     if (nt != 2 || !parse_slot(t[1], &a)) BAD();
     if (!LIVE(a) || sh[a].kind != K_ARRAY) OOC();
     n_exec++;
-    V_TRY(exc, sort(S[a]));
+    V_TRY(exc, sort(SG(a)));
     if (exc) { unexpected(exc); O("err %s", v_exc_name(exc)); return; }
     /* reference: insertion sort (values that compare equal are indistinguishable) */
     for (size_t i = 1; i < sh[a].n; i++) { SV x = sh[a].xs[i]; size_t j = i; while (j > 0 && sv_cmp(&sh[a].xs[j-1], &x) > 0) { sh[a].xs[j] = sh[a].xs[j-1]; j--; } sh[a].xs[j] = x; }
@@ -984,7 +1092,7 @@ static void run_op(int nt, char** t) {
     if (nt != 3 || !parse_slot(t[1], &a) || !parse_slot(t[2], &b)) BAD();
     if (LIVE(a) || !LIVE(b)) OOC();
     n_exec++;
-    V_TRY(exc, S[a] = copy(S[b]));
+    V_TRY(exc, S[a] = copy(SG(b)));
     if (exc) { unexpected(exc); O("err %s", v_exc_name(exc)); return; }
     sh_copy(&sh[a], &sh[b]);
     O("ok"); check_obj(a, op); check_obj(b, "copy-source"); return;
@@ -996,7 +1104,7 @@ static void run_op(int nt, char** t) {
     else if (sh[a].kind == K_VAL && sh[a].et) { if (!(sh[b].kind == K_VAL && sh[b].et)) OOC(); if (strlen(sh[a].xs[0].s) + strlen(sh[b].xs[0].s) > 30) OOC(); }
     else OOC();
     n_exec++;
-    V_TRY(exc, concat(S[a], S[b]));
+    V_TRY(exc, concat(SG(a), SG(b)));
     if (exc) { unexpected(exc); O("err %s", v_exc_name(exc)); return; }
     if (is_seq(a)) { for (size_t i = 0; i < sh[b].n; i++) { SV x = sh[b].xs[i]; sh_insert(&sh[a], sh[a].n, &x); } }
     else strcat(sh[a].xs[0].s, sh[b].xs[0].s);
@@ -1006,7 +1114,7 @@ static void run_op(int nt, char** t) {
     if (nt != 3 || !parse_slot(t[1], &a) || !parse_int(t[2], &n)) BAD();
     if (!LIVE(a) || !is_seq(a) || n < 0 || (size_t)n > sh[a].n) OOC();     /* growing creates unconstructed items: not in contract */
     n_exec++;
-    V_TRY(exc, resize(S[a], (size_t)n));
+    V_TRY(exc, resize(SG(a), (size_t)n));
     if (exc) { unexpected(exc); O("err %s", v_exc_name(exc)); return; }
     sh[a].n = (size_t)n;
     O("ok"); check_obj(a, op); return;
@@ -1028,13 +1136,13 @@ static void run_op(int nt, char** t) {
     n_exec++;
     if (op[0] == 'e') {
       bool r = false;
-      V_TRY(exc, r = eq(S[a], S[b]));
+      V_TRY(exc, r = eq(SG(a), SG(b)));
       if (exc) { unexpected(exc); O("err %s", v_exc_name(exc)); return; }
       if ((int)r != (w == 0)) XF("eq", r ? "1" : "0", w == 0 ? "1" : "0");
       O("eq %d", (int)r); return;
     }
     int r = 0;
-    V_TRY(exc, r = cmp(S[a], S[b]));
+    V_TRY(exc, r = cmp(SG(a), SG(b)));
     if (exc) { unexpected(exc); O("err %s", v_exc_name(exc)); return; }
     r = r < 0 ? -1 : r > 0 ? 1 : 0;
     if (r != w) { snprintf(e1, sizeof e1, "%d", r); snprintf(e2, sizeof e2, "%d", w); XF("cmp", e1, e2); }
@@ -1044,7 +1152,7 @@ static void run_op(int nt, char** t) {
     if (nt != 3 || !parse_slot(t[1], &a) || !parse_sv(t[2], &v)) BAD();
     if (!LIVE(a) || sh[a].kind != K_VAL || sh[a].et != v.isstr) OOC();
     n_exec++;
-    V_TRY(exc, assign(S[a], MK(v)));
+    V_TRY(exc, assign(SG(a), MK(v)));
     if (exc) { unexpected(exc); O("err %s", v_exc_name(exc)); return; }
     sh[a].xs[0] = v;
     O("ok"); check_obj(a, op); return;
@@ -1102,11 +1210,11 @@ static void run_op(int nt, char** t) {
     V_TRY(exc, {
       var x = NULL;
       switch (sel) {
-        case SEL_SELF: x = S[a]; break;
-        case SEL_AT: x = get(S[a], $I(si)); break;
-        case SEL_IT: { x = iter_init(S[a]); for (long long j = 0; j < si; j++) x = iter_next(S[a], x); } break;
-        case SEL_VAL: x = get(S[a], MK(sk)); break;
-        case SEL_KEY: { foreach (kk in S[a]) { if (eq(kk, MK(sk))) { x = kk; break; } } } break;
+        case SEL_SELF: x = SG(a); break;
+        case SEL_AT: x = get(SG(a), $I(si)); break;
+        case SEL_IT: { x = iter_init(SG(a)); for (long long j = 0; j < si; j++) x = iter_next(SG(a), x); } break;
+        case SEL_VAL: x = get(SG(a), MK(sk)); break;
+        case SEL_KEY: { foreach (kk in SG(a)) { if (eq(kk, MK(sk))) { x = kk; break; } } } break;
       }
       switch (ek) {
         case E_CAT: concat(x, $S(ev.s)); break;
@@ -1153,7 +1261,7 @@ static void run_op(int nt, char** t) {
     if (!LIVE(a) || is_map(a)) OOC();
     n_exec++;
     uint64_t h = 0;
-    V_TRY(exc, h = hash(S[a]));
+    V_TRY(exc, h = hash(SG(a)));
     if (exc) { unexpected(exc); return; }
     fprintf(vout, "T hash %016" PRIx64 "\n", h); return;
   }
@@ -1162,7 +1270,7 @@ static void run_op(int nt, char** t) {
     if (!LIVE(a) || sh[a].kind != K_VAL) OOC();       /* containers print their address */
     n_exec++;
     var s = NULL; int pos = 0;
-    V_TRY(exc, { s = new(String, $S("")); pos = show_to(S[a], s, 0); });
+    V_TRY(exc, { s = new(String, $S("")); pos = show_to(SG(a), s, 0); });
     if (exc) { unexpected(exc); return; }
     fprintf(vout, "T show %d %s\n", pos, c_str(s));
     del(s); return;
@@ -1174,12 +1282,12 @@ static void run_op(int nt, char** t) {
     var s = NULL; int pos = 0;
     if (sh[a].et) {
       const char* f = FMTS_STR[n % 4];
-      V_TRY(exc, { s = new(String, $S("")); pos = print_to(s, 0, f, S[a], S[a]); pos = print_to(s, pos, " %$", S[a]); });
+      V_TRY(exc, { s = new(String, $S("")); pos = print_to(s, 0, f, SG(a), SG(a)); pos = print_to(s, pos, " %$", SG(a)); });
     } else {
       const char* f = FMTS_INT[n % 8];
       long long iv = sh[a].xs[0].i;
       if (n % 8 == 7 && (iv < 33 || iv > 126)) OOC();
-      V_TRY(exc, { s = new(String, $S("")); pos = print_to(s, 0, f, S[a], S[a]); pos = print_to(s, pos, " %$", S[a]); });
+      V_TRY(exc, { s = new(String, $S("")); pos = print_to(s, 0, f, SG(a), SG(a)); pos = print_to(s, pos, " %$", SG(a)); });
     }
     if (exc) { unexpected(exc); return; }
     fprintf(vout, "T fmt %d %s\n", pos, c_str(s));
@@ -1214,9 +1322,9 @@ static void run_op(int nt, char** t) {
     if (!LIVE(a) || !is_seq(a) || n < 0 || (size_t)n >= sh[a].n) OOC();   /* F11: only `start`, step 1, start < len */
     n_exec++;
     size_t l = 0; buf1[0] = 0; char e[96], e0[64];
-    if (op[0] == 's') { V_TRY(exc, { foreach (x in slice(S[a], $I(n))) { lib_show(e0, sizeof e0, x); snprintf(e, sizeof e, "%s,", e0); app(buf1, &l, e); } }); }
-    else if (op[0] == 'r') { V_TRY(exc, { foreach (x in reverse(S[a])) { lib_show(e0, sizeof e0, x); snprintf(e, sizeof e, "%s,", e0); app(buf1, &l, e); } }); }
-    else { V_TRY(exc, { foreach (p in enumerate(S[a])) { lib_show(e0, sizeof e0, get(p, $I(1))); snprintf(e, sizeof e, "%lld:%s,", (long long)c_int(get(p, $I(0))), e0); app(buf1, &l, e); } }); }
+    if (op[0] == 's') { V_TRY(exc, { foreach (x in slice(SG(a), $I(n))) { lib_show(e0, sizeof e0, x); snprintf(e, sizeof e, "%s,", e0); app(buf1, &l, e); } }); }
+    else if (op[0] == 'r') { V_TRY(exc, { foreach (x in reverse(SG(a))) { lib_show(e0, sizeof e0, x); snprintf(e, sizeof e, "%s,", e0); app(buf1, &l, e); } }); }
+    else { V_TRY(exc, { foreach (p in enumerate(SG(a))) { lib_show(e0, sizeof e0, get(p, $I(1))); snprintf(e, sizeof e, "%lld:%s,", (long long)c_int(get(p, $I(0))), e0); app(buf1, &l, e); } }); }
     if (exc) { unexpected(exc); return; }
     fprintf(vout, "T %s [%s]\n", op, buf1); return;
   }
@@ -1225,7 +1333,7 @@ static void run_op(int nt, char** t) {
     if (!LIVE(a) || !LIVE(b) || !is_seq(a) || !is_seq(b)) OOC();
     n_exec++;
     size_t l = 0; buf1[0] = 0; char e[160], ea[64], eb[64];
-    V_TRY(exc, { foreach (p in zip(S[a], S[b])) { lib_show(ea, sizeof ea, get(p, $I(0))); lib_show(eb, sizeof eb, get(p, $I(1))); snprintf(e, sizeof e, "%s:%s,", ea, eb); app(buf1, &l, e); } });
+    V_TRY(exc, { foreach (p in zip(SG(a), SG(b))) { lib_show(ea, sizeof ea, get(p, $I(0))); lib_show(eb, sizeof eb, get(p, $I(1))); snprintf(e, sizeof e, "%s:%s,", ea, eb); app(buf1, &l, e); } });
     if (exc) { unexpected(exc); return; }
     fprintf(vout, "T zip [%s]\n", buf1); return;
   }
@@ -1235,8 +1343,8 @@ static void run_op(int nt, char** t) {
     if (op[0] == 'm' && sh[a].et) OOC();
     n_exec++;
     view_k = n; size_t l = 0; buf1[0] = 0; char e[96], e0[64];
-    if (op[0] == 'f') { V_TRY(exc, { foreach (x in filter(S[a], $(Function, sh[a].et ? fn_len_gt : fn_gt))) { lib_show(e0, sizeof e0, x); snprintf(e, sizeof e, "%s,", e0); app(buf1, &l, e); } }); }
-    else { V_TRY(exc, { foreach (x in map(S[a], $(Function, fn_add))) { lib_show(e0, sizeof e0, x); snprintf(e, sizeof e, "%s,", e0); app(buf1, &l, e); del(x); } }); }
+    if (op[0] == 'f') { V_TRY(exc, { foreach (x in filter(SG(a), $(Function, sh[a].et ? fn_len_gt : fn_gt))) { lib_show(e0, sizeof e0, x); snprintf(e, sizeof e, "%s,", e0); app(buf1, &l, e); } }); }
+    else { V_TRY(exc, { foreach (x in map(SG(a), $(Function, fn_add))) { lib_show(e0, sizeof e0, x); snprintf(e, sizeof e, "%s,", e0); app(buf1, &l, e); del(x); } }); }
     if (exc) { unexpected(exc); return; }
     fprintf(vout, "T %s [%s]\n", op, buf1); return;
   }
@@ -1274,7 +1382,7 @@ static void run_op(int nt, char** t) {
     n_exec++;
     var args[MAXTOK + 1];
     V_TRY(exc, {
-      for (int i = 0; i < cnt; i++) args[i] = copy(S[xs[i]]);        /* fresh objects: no pointer occurs twice (F13) */
+      for (int i = 0; i < cnt; i++) args[i] = copy(SG(xs[i]));        /* fresh objects: no pointer occurs twice (F13) */
       args[cnt] = Terminal;
       if (isnew) TS[a] = new_with(Tuple, $(Tuple, args)); else concat(TS[a], $(Tuple, args));
     });
@@ -1291,18 +1399,18 @@ static void run_op(int nt, char** t) {
     if (op[1] == 'p' && tsh[a].n >= 200) TOOC();
     n_exec++;
     if (op[1] == 'p') {
-      V_TRY(exc, push(TS[a], copy(S[b])));
+      V_TRY(exc, push(TS[a], copy(SG(b))));
       if (exc) { unexpected(exc); return; }
       sh_insert(&tsh[a], tsh[a].n, &sh[b].xs[0]);
     } else if (op[1] == 'm') {
       bool r = false;
-      V_TRY(exc, r = mem(TS[a], S[b]));
+      V_TRY(exc, r = mem(TS[a], SG(b)));
       if (exc) { unexpected(exc); return; }
       if ((int)r != (at >= 0)) XF("tmem", r ? "1" : "0", at >= 0 ? "1" : "0");
       fprintf(vout, "T tmem %d\n", (int)r); return;
     } else {
       var victim = NULL;
-      V_TRY(exc, { victim = get(TS[a], $I(at)); rem(TS[a], S[b]); del(victim); });   /* `rem` removes the first equal item: that one */
+      V_TRY(exc, { victim = get(TS[a], $I(at)); rem(TS[a], SG(b)); del(victim); });   /* `rem` removes the first equal item: that one */
       if (exc) { unexpected(exc); return; }
       sh_remove(&tsh[a], (size_t)at);
     }
@@ -1315,11 +1423,11 @@ static void run_op(int nt, char** t) {
     if (i < 0 || i >= L || L >= 200) TOOC();             /* Tuple_Push_At walks to an existing item: i == len is refused */
     n_exec++;
     if (op[1] == 'p') {
-      V_TRY(exc, push_at(TS[a], copy(S[b]), $I(n)));
+      V_TRY(exc, push_at(TS[a], copy(SG(b)), $I(n)));
       if (exc) { unexpected(exc); return; }
       sh_insert(&tsh[a], (size_t)i, &sh[b].xs[0]);
     } else {
-      V_TRY(exc, { var old = get(TS[a], $I(n)); set(TS[a], $I(n), copy(S[b])); del(old); });
+      V_TRY(exc, { var old = get(TS[a], $I(n)); set(TS[a], $I(n), copy(SG(b))); del(old); });
       if (exc) { unexpected(exc); return; }
       tsh[a].xs[i] = sh[b].xs[0];
     }
@@ -1625,6 +1733,7 @@ static void run_op(int nt, char** t) {
       if (n < 0 || n > 400) OOC();
       n_exec++; n_keep++;
       long long c = 0;
+      k_scrub();
       V_TRY(exc, c = churn_round(n));
       if (exc) { unexpected(exc); O("err %s", v_exc_name(exc)); return; }
       k_scrub(); k_audit("hchurn");
@@ -1632,7 +1741,7 @@ static void run_op(int nt, char** t) {
     }
     if (nt < 2 || !parse_slot(t[1], &h)) BAD();
     if (!strcmp(op, "hnew")) {
-      if (nt != 3 || strlen(t[2]) != 1 || !strchr("altkrqucsw", t[2][0])) BAD();
+      if (nt != 3 || strlen(t[2]) != 1 || !strchr("altkrqucswALTKRQUC", t[2][0])) BAD();
     } else if (!strcmp(op, "hput")) {
       if (nt != 5 || !parse_int(t[2], &k) || !parse_int(t[3], &id) || !parse_int(t[4], &pay)) BAD();
     } else if (!strcmp(op, "hget") || !strcmp(op, "hrem") || !strcmp(op, "hrel") || !strcmp(op, "hshrink") || !strcmp(op, "hreserve")) {
@@ -1643,24 +1752,12 @@ static void run_op(int nt, char** t) {
     if (!strcmp(op, "hnew")) {
       if (s->kind) OOC();
       n_exec++; n_keep++; k_audit("before");
-      int kind = t[2][0];
-      V_TRY(exc, {
-        switch (kind) {
-          case 'a': HH[h] = new(Array, Ref); break;
-          case 'l': HH[h] = new(List, Ref); break;
-          case 't': HH[h] = new(Table, Int, Ref); break;
-          case 'k': HH[h] = new(Table, KCell, Int); break;
-          case 'r': HH[h] = new(Tree, Int, Ref); break;
-          case 'q': HH[h] = new(Tree, KCell, Int); break;
-          case 'u': HH[h] = new(Tuple); break;
-          case 'c': HH[h] = new(Ref); ref(HH[h], NULL); break;
-          case 's': HH[h] = NULL; break;
-          case 'w': HH[h] = new(Thread, keep_fn); break;
-        }
-      });
+      int kind = t[2][0], rooted = 0;
+      if (kind >= 'A' && kind <= 'Z') { rooted = 1; kind = kind - 'A' + 'a'; }
+      V_TRY(exc, k_new_holder(h, kind, rooted));
       if (exc) { unexpected(exc); O("err %s", v_exc_name(exc)); return; }
-      memset(s, 0, sizeof *s); s->kind = kind;
-      k_audit(op); O("ok"); return;
+      memset(s, 0, sizeof *s); s->kind = kind; s->rooted = rooted;
+      k_scrub(); k_audit(op); O("ok"); return;
     }
     if (!s->kind) OOC();
     if (k_poisoned) { O("skipped-after-lost-object"); return; }
@@ -1703,16 +1800,7 @@ static void run_op(int nt, char** t) {
       if (k < 0 || k > s->n) OOC();
       if (k_ismap(s->kind) && k != 0) OOC();
       n_exec++; n_keep++;
-      V_TRY(exc, {
-        if (s->kind == 's') { char key[48]; for (int i = 0; i < s->n; i++) { k_tls_key(key, sizeof key, h, s->key[i]); rem(current(Thread), $S(key)); } }
-        else if (s->kind == 'w') { char key[48]; for (int i = 0; i < s->n; i++) { k_tls_key(key, sizeof key, h, s->key[i]); rem(HH[h], $S(key)); } }
-        else if (s->kind == 'c') {
-          if (k == 0) ref(HH[h], NULL);
-          else { var L = deref(HH[h]); struct Tracked* q = deref(L); for (int i = 1; i < k; i++) { L = q->link; q = deref(L); } q->link = NULL; }
-        }
-        else if (s->kind == 'u') { if (k < s->n) resize(HH[h], (size_t)k); }       /* Tuple_Resize refuses n >= len */
-        else resize(HH[h], (size_t)k);
-      });
+      V_TRY(exc, k_shrink(h, k));
       if (exc) { unexpected(exc); O("err %s", v_exc_name(exc)); return; }
       for (int i = (int)k; i < s->n; i++) led[s->id[i]].expect = 0;
       s->n = (int)k;
@@ -1721,14 +1809,14 @@ static void run_op(int nt, char** t) {
     if (!strcmp(op, "hreserve")) {
       if ((s->kind != 't' && s->kind != 'k') || k < s->n || k < 1 || k > 400) OOC();
       n_exec++; n_keep++;
-      V_TRY(exc, resize(HH[h], (size_t)k));
+      V_TRY(exc, k_resize(h, k));
       if (exc) { unexpected(exc); O("err %s", v_exc_name(exc)); return; }
-      k_audit(op); O("ok"); return;
+      k_scrub(); k_audit(op); O("ok"); return;
     }
     if (!strcmp(op, "hread")) {
       n_exec++; n_keep++; n_keep_reads++;
       int cnt = 0; size_t ln = 0;
-      V_TRY(exc, { cnt = k_collect(h); if (s->kind != 's' && s->kind != 'c' && s->kind != 'w') ln = len(HH[h]); else ln = (size_t)cnt; });
+      V_TRY(exc, { cnt = k_collect(h); if (s->kind != 's' && s->kind != 'c' && s->kind != 'w') ln = k_len(h); else ln = (size_t)cnt; });
       if (exc) { unexpected(exc); O("err %s", v_exc_name(exc)); return; }
       if (cnt != s->n || ln != (size_t)s->n) { snprintf(e1, sizeof e1, "%d/%zu", cnt, ln); snprintf(e2, sizeof e2, "%d", s->n); XF("keep-length", e1, e2); }
       if (cnt > MAXE) cnt = MAXE;
@@ -1749,10 +1837,10 @@ static void run_op(int nt, char** t) {
       }
       memset(kp, 0, sizeof kp); memset(kl, 0, sizeof kl);
       if (s->kind == 't' || s->kind == 'k') {
-        struct Table* tb = HH[h]; size_t high = 0;
-        for (size_t i = tb->nitems; i < tb->nslots; i++) if (Table_Key_Hash(tb, i) != 0) high++;
+        size_t high = 0, tslots = 0;
+        k_table_stats(h, &tslots, &high);
         n_high += high;
-        O("hread n=%d [%s] slots=%zu high=%zu", cnt, buf1, tb->nslots, high);
+        O("hread n=%d [%s] slots=%zu high=%zu", cnt, buf1, tslots, high);
       } else O("hread n=%d [%s]", cnt, buf1);
       k_scrub(); return;
     }
@@ -1769,6 +1857,7 @@ static void run_op(int nt, char** t) {
       k_scrub(); k_audit(op); return;
     }
     if (!strcmp(op, "hdrop") || !strcmp(op, "hdel")) {
+      if (op[2] == 'r' && s->rooted) OOC();       /* forgetting the only pointer to a root leaks it in every build: not a program the workload writes */
       n_exec++; n_keep++;
       if (op[2] == 'e') {
         V_TRY(exc, k_delete_all(h));
@@ -1776,7 +1865,7 @@ static void run_op(int nt, char** t) {
         k_forget(h, 1);
       } else {
         if (s->kind == 's') { V_TRY(exc, { char key[48]; for (int i = 0; i < s->n; i++) { k_tls_key(key, sizeof key, h, s->key[i]); rem(current(Thread), $S(key)); } }); if (exc) { unexpected(exc); return; } }
-        HH[h] = NULL; k_forget(h, 0);
+        HH[h] = NULL; hroot[h] = 0; k_forget(h, 0);
       }
       k_scrub(); k_audit(op); O("ok"); return;
     }
@@ -1991,7 +2080,7 @@ static void run_op(int nt, char** t) {
 #ifndef CELLO_NGC
     GC_Mark(current(GC)); GC_Sweep(current(GC));
 #endif
-    k_audit("gc");
+    s_audit("gc"); k_audit("gc");
     fprintf(vout, "T gc\n");
     /* every live handle must be intact after a collection */
     for (int s = 0; s < MAXSLOT; s++) if (LIVE(s)) check_obj(s, "gc");
@@ -2023,11 +2112,14 @@ int main(int argc, char** argv) {
     char* toks[MAXTOK]; int nt = 0; char* p = l;
     while (*p && nt < MAXTOK) { while (*p == ' ') p++; if (!*p) break; toks[nt++] = p; while (*p && *p != ' ') p++; if (*p) *p++ = 0; }
     if (nt == 0 || (nt == MAXTOK && *p)) { O("bad-op"); n_bad++; continue; }
+    deep_scrub();                  /* what the previous operation left in dead frames is not a reference the program holds */
+    s_audit("before");
     run_op(nt, toks);
   }
+  deep_scrub(); s_audit("end");
   /* teardown: the workload deletes what it created (nothing is freed for it under CELLO_NGC) */
   size_t live = 0;
-  for (int s = 0; s < MAXSLOT; s++) if (LIVE(s)) { live++; check_obj(s, "end"); var exc; V_TRY(exc, del_by_mode(S[s], sh[s].mode)); if (exc) unexpected(exc); S[s] = NULL; sh_free(&sh[s]); }
+  for (int s = 0; s < MAXSLOT; s++) if (LIVE(s)) { live++; check_obj(s, "end"); var exc; V_TRY(exc, del_by_mode(SG(s), sh[s].mode)); if (exc) unexpected(exc); S[s] = NULL; sroot[s] = 0; sh_free(&sh[s]); }
   size_t tlive = 0;
   for (int s = 0; s < MAXT; s++) if (tsh[s].kind == K_TUPLE) {
     tlive++; check_tuple(s, "end");
